@@ -20,7 +20,8 @@ TIERS = {
 REQUIRED_BUCKETS = ['shape:fn', 'shape:init', 'shape:new', 'shape:method', 'mark:positional', 'mark:keyword', 'mark:signature', 'mark:varkw-extra',
                     'mark:vararg-slot', 'outcome:filled', 'outcome:missing', 'outcome:missing-multiple', 'outcome:vararg-rejected',
                     'outcome:partially-filled', 'scope:nonapplicable-binding', 'scope:depth2+', 'reg:required-denylisted', 'reg:required-not-allowlisted',
-                    'mark:signature-overridden-by-caller', 'outcome:missing-order-differs-from-call-order', 'name:ambiguous-bare-name']
+                    'mark:signature-overridden-by-caller', 'outcome:missing-order-differs-from-call-order', 'name:ambiguous-bare-name', 'binding:falsy-value',
+                    'history:unmarked-call-after-marked-call']
 ORACLE_COUNTERS = ['oracle_evals', 'calls_compared', 'error_messages_parsed']
 MSG = re.compile(r"Required bindings for `([^`]+)` not provided in config: (\[.*?\])", re.S)
 
@@ -145,8 +146,11 @@ def run_case(ctx, case):
   p = probes.build(spec)
   ctx.bucket('shape:' + spec['shape'])
   model = {}
-  for scope, param in case['bindings']:
-    value = 'B|%s|%s' % (scope, param)
+  for bi, (scope, param) in enumerate(case['bindings']):
+    # bound values include falsy ones: a binding of None / 0 / '' / [] is still a binding
+    value = [None, 0, '', 'B|%s|%s' % (scope, param), False, 'B|%s|%s' % (scope, param)][(ctx.case_no + bi) % 6] if (ctx.case_no % 3 == 0) else 'B|%s|%s' % (scope, param)
+    if value in (None, 0, '', False):
+      ctx.bucket('binding:falsy-value')
     gin.bind_parameter((scope, p.selector, param), value)
     model.setdefault((scope, p.selector), {})[param] = value
   active = case['active']
@@ -249,6 +253,7 @@ def run_case(ctx, case):
     listed = ast.literal_eval(mt.group(2))
     ctx.check(listed == expect[1], 'required-error-list-differs',
               'error lists %r, model (unfilled, signature order) %r' % (listed, expect[1]))
+    followup_call(ctx, gin, p, spec, active, applicable, sig_marked)
     return
   if expect[0] == 'TypeError':
     ctx.check(isinstance(got_exc, TypeError), 'expected-TypeError', 'binder raises TypeError(%s); gin gave %r' % (expect[1], got_exc))
@@ -276,6 +281,46 @@ def run_case(ctx, case):
     else:
       ok = teq(ev, gv)
   ctx.check(ok, 'required-filled-wrong', 'received %r, model %r (applicable %r)' % (got, e, applicable))
+  followup_call(ctx, gin, p, spec, active, applicable, sig_marked)
+
+
+def followup_call(ctx, gin, p, spec, active, applicable, sig_marked):
+  """A later, unmarked call of the same configurable: what an earlier call marked REQUIRED must not stick."""
+  ctx.bucket('history:unmarked-call-after-marked-call')
+  K = {}
+  for n in spec['pos']:
+    if n not in applicable:
+      K[n] = ['later', n]
+  for n, has, _ in spec['kwonly']:
+    if not has and n not in applicable:
+      K[n] = ['later', n]
+  for n in sig_marked:
+    if n not in applicable:
+      K[n] = ['later', n]
+  if spec['varkw']:
+    K['x9'] = ['later', 'x9']
+  inj = {k: v for k, v in applicable.items() if k not in K}
+  try:
+    want = p.twin(**{**inj, **K})
+  except TypeError:
+    return
+  mark = probes.RECORDER.mark()
+  exc = None
+  try:
+    if active:
+      with gin.config_scope(list(active)):
+        probes.call_probe(p, [], dict(K))
+    else:
+      probes.call_probe(p, [], dict(K))
+  except Exception as e:  # pylint: disable=broad-except
+    exc = e
+  recs = probes.RECORDER.since(mark, p.pid)
+  if not ctx.check(exc is None and len(recs) == 1, 'later-unmarked-call-failed',
+                   'a later call without any REQUIRED marker (all unfilled parameters supplied by the caller) raised %r' % (exc,)):
+    return
+  got = recs[0].received
+  ok = set(got) == set(want) and all((got[k] is want[k]) if isinstance(want[k], list) else (teq(got[k], want[k]) if k not in ('*', '**') else True) for k in want)
+  ctx.check(ok, 'later-unmarked-call-differs', 'later unmarked call received %r, model %r' % (got, want))
 
 
 def finish(ctx):
